@@ -189,9 +189,18 @@ def run(ctx, args):
             ctx.violation(f"internal-error:run:{run_['key']}", f"{r['id']}: the compiler accepted the program, the VM fails with an internal error: {run_['what']}", case)
         elif bad.get("e") == "link":
             ctx.violation(f"internal-error:link:{bad.get('what')}", f"{r['id']}: linking an accepted module fails: {bad.get('what')}", case)
-        else:
+        elif v["verdict"].startswith("internal error") or "no module was returned" in v["verdict"]:
             short = v["verdict"].split(": ")[0][:70] + ":" + ":".join((r.get("why") or "").split(":")[:2])
             ctx.violation(f"pipeline:{short}", f"{r['id']}: {v['verdict']}", case)
+        else:
+            # the order and the set of passes are how Pipeline.tla tells a rejection from an internal error; a trace that breaks those
+            # structural rules without any failure is a divergence between the specification and the compiler driver, not something
+            # the statement forbids: a note
+            counts["diverging:" + v["verdict"][:60]] = counts.get("diverging:" + v["verdict"][:60], 0) + 1
+            if sum(n_ for k_, n_ in counts.items() if k_.startswith("diverging:")) <= 3:
+                msg = f"CONFORMANCE-NOTE (not a verdict on the listed property): {r['id']}: the compiler's event trace is not a behaviour of spec/Pipeline.tla: {v['verdict']} (event {bad})"
+                print(msg[:500])
+                ctx.notes.append(msg[:500])
     if accepted == 0:
         raise common.Machinery("vacuous run: nothing accepted")
     samples = [{"id": r["id"], "source": r["src"], "events": [f"{e['e']}:{e.get('s', e.get('name', e.get('r')))}" for e in r["events"]][-8:]} for r in recs[nbin * 2 + 6::max(1, len(recs) // 4)][:3]]
